@@ -17,7 +17,7 @@ from algopy import UTPM, CGraph, Function
 from ..runner import Bucket, Violation, Inconclusive, Rejected, guard, KF
 from .. import gen
 from .. import prog as PG
-from .c05 import _mk_input, eval_spec
+from .c05 import _mk_input, eval_spec, refill
 
 PID = 'C06'
 RULE = ('histories of 2..10 steps over {forward(point,D,P,kind), reverse(seed), driver(name,point,v,w), second graph, plain replay} '
@@ -44,6 +44,15 @@ def _record(case, inputs):
     cg.independentFunctionList = fins
     cg.dependentFunctionList = [regs[case['out']]]
     return cg, fins, regs
+
+
+def _record_detached(case, inputs):
+    """record a reference graph without disturbing a recording that is in progress"""
+    saved = Function.cgraph
+    try:
+        return _record(case, inputs)
+    finally:
+        Function.cgraph = saved
 
 
 def _snap(x):
@@ -81,6 +90,46 @@ DRIVERS_SCALAR = ['gradient', 'hessian', 'hess_vec']
 DRIVERS_VECTOR = ['jacobian', 'jac_vec', 'vec_jac', 'vec_hess']
 
 
+def _forward_reference(case, name, x, v, w):
+    """the driver's result from forward-mode propagation of the direct program only (no graph, no reverse sweep): immune to
+    state that all graphs share (module/class level caches), which the fresh-graph reference would inherit"""
+    from .c04 import fwd_jacobian, fwd_hessian_of
+    if name == 'gradient' or name == 'jacobian':
+        return fwd_jacobian(case, x)
+    if name == 'hessian':
+        return fwd_hessian_of(case, x)
+    if name == 'hess_vec':
+        return fwd_hessian_of(case, x) @ v
+    if name == 'jac_vec':
+        return fwd_jacobian(case, x) @ v
+    if name == 'vec_jac':
+        return w @ fwd_jacobian(case, x)
+    if name == 'vec_hess':
+        return fwd_hessian_of(case, x, w)
+    raise KeyError(name)
+
+
+TOL_FWD = 1e-8
+
+
+def _close_fwd(got, case, name, x, v, w, what, stats):
+    try:
+        ref = np.asarray(_forward_reference(case, name, np.array(x, dtype=float), v, w))
+    except Exception as e:
+        stats.event('forward-reference:unavailable')
+        return
+    got = np.asarray(got)
+    if got.shape != ref.shape or not np.all(np.isfinite(ref)):
+        stats.event('forward-reference:unavailable')
+        return
+    scale = max(1.0, float(np.max(np.abs(ref))) if ref.size else 1.0)
+    e = float(np.max(np.abs(got - ref))) / scale if ref.size and np.all(np.isfinite(got)) else (0.0 if not ref.size else float('inf'))
+    stats.event('forward-reference:compared')
+    if e > TOL_FWD:
+        raise Violation('%s: differs from the forward-mode derivative of the direct program by %.2e (rel.) although the same call on a '
+                        'fresh graph may agree: state shared between graphs' % (what, e))
+
+
 def _call_driver(cg, name, x, v, w):
     x, v, w = x.copy(), v.copy(), w.copy()
     if name in ('gradient', 'hessian', 'jacobian'):
@@ -97,6 +146,7 @@ def prop_history(case, stats):
     rec_in = _mk_input(case, case['rec'])
     cg, fins, regs = guard(_record, case, rec_in)
     last_fwd = None     # inputs of the last forward evaluation (UTPM) or None
+    last_objs = None    # the caller's input containers of the last forward evaluation
     held = []           # results handed to the caller (NOT copied) with a byte snapshot taken when they were returned
 
     def hold(what, obj):
@@ -112,6 +162,17 @@ def prop_history(case, stats):
                 ref = PG.run(case['prog'], _mk_input(case, stp['spec']))[case['out']]
             except NotImplementedError as e:
                 raise Rejected(str(e))
+            if stp.get('reuse'):
+                # the caller writes the next point into the containers of the previous evaluation and passes the same objects
+                same = refill(last_objs, xin)
+                if same is not None:
+                    xin = same
+                    what += ' [same input objects, refilled in place]'
+                    stats.event('forward:containers-reused')
+                    # results that are views of the caller's own container change with it: not "changed by a later call"
+                    mems = [x.data if isinstance(x, UTPM) else x for x in xin]
+                    held[:] = [h for h in held if not any(np.may_share_memory(h[1], m) for m in mems)]
+            last_objs = xin
             guard(cg.pushforward, xin)
             got = cg.dependentFunctionList[0].x
             if isinstance(ref, UTPM) != isinstance(got, UTPM):
@@ -145,18 +206,39 @@ def prop_history(case, stats):
             cg2, _, _ = guard(_record, case, [x.copy()])
             ref = guard(_call_driver, cg2, stp['name'], x, stp['v'], stp['w'])
             _close(got, ref, what + ' ' + stp['name'], stats)
+            _close_fwd(got, case, stp['name'], x, stp['v'], stp['w'], what + ' ' + stp['name'], stats)
             hold(what + ' ' + stp['name'] + ' result', got)
             last_fwd = None     # drivers evaluate the graph themselves
         elif kind == 'other_graph':
             cgo = CGraph()
             try:
                 g = Function(np.array(stp['x'], dtype=float))
-                h = algopy.sum(algopy.sin(g) * g)
+                s1 = algopy.sin(g)
+                if stp.get('mid') is not None:
+                    # the first graph is evaluated while the second one is being recorded
+                    x = np.array(pts[stp['mid']['k']], dtype=float)
+                    if stp['mid']['how'] == 'plain':
+                        got = guard(cg.function, [x.copy()])[0]
+                        _close(got, PG.run(case['prog'], [x.copy()])[case['out']], what + ' evaluation during the other recording', stats)
+                    else:
+                        got = guard(_call_driver, cg, stp['mid']['how'], x, stp['mid']['v'], stp['mid']['w'])
+                        cg2, _, _ = _record_detached(case, [x.copy()])
+                        ref = guard(_call_driver, cg2, stp['mid']['how'], x, stp['mid']['v'], stp['mid']['w'])
+                        _close(got, ref, what + ' ' + stp['mid']['how'] + ' during the other recording', stats)
+                    last_fwd = None
+                    if Function.cgraph is not cgo:
+                        raise Violation('%s: evaluating the first graph ended / redirected the recording of the second graph' % what)
+                h = algopy.sum(s1 * g)
             finally:
                 cgo.trace_off()
+            names = [f.func.__name__ for f in cgo.functionList]
+            if names != ['Id', 'sin', 'mul', 'sum']:
+                raise Violation('%s: the second graph recorded %s instead of its own four operations' % (what, names[:8]))
             cgo.independentFunctionList = [g]
             cgo.dependentFunctionList = [h]
-            guard(cgo.gradient, np.array(stp['x'], dtype=float) + 1.0)
+            xo = np.array(stp['x'], dtype=float) + 1.0
+            go = guard(cgo.gradient, xo)
+            _close(go, np.cos(xo) * xo + np.sin(xo), what + ' gradient of the second graph', stats)
         elif kind == 'replay_plain':
             x = np.array(pts[stp['k']], dtype=float)
             got = guard(cg.function, [x.copy()])[0]
@@ -202,8 +284,13 @@ def history_cases(draw, tier, outkind, first=None, families=None, driver_heavy=F
             choices = ['reverse', 'reverse', 'reverse'] + choices
         k = draw(st.sampled_from(choices))
         if k == 'forward':
-            spec = draw(eval_spec(pr['pts'], K, kinds=('utpm', 'utpm', 'nd'), Dmax=3))
-            hist.append({'step': 'forward', 'spec': spec})
+            prevf = [h for h in hist if h['step'] == 'forward']
+            if prevf and draw(st.integers(0, 2)) == 0:
+                spec = draw(eval_spec(pr['pts'], K, kinds=('utpm', 'utpm', 'nd'), Dmax=3, like=prevf[-1]['spec']))
+                hist.append({'step': 'forward', 'spec': spec, 'reuse': True})
+            else:
+                spec = draw(eval_spec(pr['pts'], K, kinds=('utpm', 'utpm', 'nd'), Dmax=3))
+                hist.append({'step': 'forward', 'spec': spec})
             last = (spec['D'], len(spec['idx'])) if spec['kind'] == 'utpm' else None
         elif k == 'reverse':
             D, P = last
@@ -221,7 +308,12 @@ def history_cases(draw, tier, outkind, first=None, families=None, driver_heavy=F
                          'w': draw(gen.float_array((M,), dense, sparse=False))})
             last = None
         elif k == 'other_graph':
-            hist.append({'step': 'other_graph', 'x': draw(gen.float_array((3,), dense, sparse=False))})
+            stp = {'step': 'other_graph', 'x': draw(gen.float_array((3,), dense, sparse=False)), 'mid': None}
+            if draw(st.booleans()):
+                stp['mid'] = {'how': draw(st.sampled_from(drivers + ['plain'])), 'k': draw(st.integers(0, K - 1)),
+                              'v': draw(gen.float_array((N,), dense, sparse=False)), 'w': draw(gen.float_array((M,), dense, sparse=False))}
+                last = None
+            hist.append(stp)
         else:
             hist.append({'step': 'replay_plain', 'k': draw(st.integers(0, K - 1))})
             last = None
@@ -248,6 +340,10 @@ def _hist_classes(case):
             c.add('forward-other-D-P-then-reverse')
     if 'other_graph' in h:
         c.add('interleaved-second-graph')
+    if any(s_['step'] == 'other_graph' and s_.get('mid') for s_ in case['history']):
+        c.add('evaluation-while-another-graph-records')
+    if any(s_.get('reuse') for s_ in case['history']):
+        c.add('forward-with-same-spec-as-previous-forward')
     hist = case['history']
     for i, st_ in enumerate(hist):
         if st_['step'] != 'driver':
@@ -295,4 +391,13 @@ def buckets(tier):
                          (lambda kind=kind: history_cases(tier, kind, first='un', families=['un', 'bin', 'binc', 'pow', 'dot'], driver_heavy=True)),
                          prop_history, {'quick': 160, 'thorough': 500}, nontrivial=_nontrivial, classes=_classes,
                          shards={'quick': 3, 'thorough': 6}, weight=10.0))
+        # factorisations of a reshaped input: eigh/cholesky/inv/det pullbacks keep work arrays keyed on shapes and base points
+        bl.append(Bucket('history-linalg:' + kind,
+                         (lambda kind=kind: history_cases(tier, kind, first='vec2lin', families=['un', 'bin', 'binc', 'vec2lin', 'get'])),
+                         prop_history, {'quick': 100, 'thorough': 400}, nontrivial=_nontrivial, classes=_classes,
+                         shards={'quick': 4, 'thorough': 6}, weight=12.0))
+        bl.append(Bucket('history-linalg-drivers:' + kind,
+                         (lambda kind=kind: history_cases(tier, kind, first='vec2lin', families=['un', 'bin', 'binc', 'get'], driver_heavy=True)),
+                         prop_history, {'quick': 100, 'thorough': 400}, nontrivial=_nontrivial, classes=_classes,
+                         shards={'quick': 4, 'thorough': 6}, weight=12.0))
     return bl
